@@ -251,6 +251,7 @@ func checkArrayAlgebra(p *Program, r *Report, prop string) {
 	r.Floor("R01.4", "stride/shape constructions", n4, floor4)
 
 	checkNoDoubleStep(p, r, prop)
+	checkAccessorSiblings(p, r, only)
 	r.Rule("R01.5", "views are live: a view object holds nothing but strides and the shared storage (no second element buffer), and what Unroll hands out is the storage itself or gathered in the same call, never a copy cached in the view")
 	// R01.2 / R01.3
 	ats := arrayTypes(p)
@@ -473,7 +474,6 @@ func guardedByContiguous(b *ssa.BasicBlock, accept func(recv ssa.Value) bool) bo
 	return false
 }
 
-
 // checkNoDoubleStep (R01.6): a step is applied once. Where a view v is cut with x.Slice(loc, dims, step), no
 // operation on v itself (Apply, ApplySlice, Slice) is given a step derived from that same step vector: v's own
 // indices already advance by it, so applying it again addresses loc + i*step² of the parent.
@@ -539,4 +539,97 @@ func checkNoDoubleStep(p *Program, r *Report, prop string) {
 		}
 	}
 	r.Analysed["R01.6 operations on views cut with a step"] = n
+}
+
+// checkAccessorSiblings (R01.7): Get1 and Set1 of a type address the same element. Each hands an index vector to
+// Get/Set; the ways that vector can be built (a one-element literal, a zero index with the position stored at the
+// first axis longer than one, a helper) must be the same set for the read and for the write.
+func checkAccessorSiblings(p *Program, r *Report, only func(*arrayType) bool) {
+	r.Rule("R01.7", "the 1-D accessors agree: for every array type, the index vector Set1 hands to Set is built in the same ways (literal {loc}, zero index with loc stored at the first axis longer than one, shared helper) as the one Get1 hands to Get — otherwise a write through a 1×N view lands on a different element than the read, outside the view")
+	n := 0
+	descr := func(fn *ssa.Function, inner string) (map[string]bool, string) {
+		out := map[string]bool{}
+		for _, c := range callsIn(fn) {
+			if callName(c.Common()) != inner {
+				continue
+			}
+			args := callArgs(c.Common())
+			if len(args) == 0 {
+				continue
+			}
+			for _, o := range origins(args[0]) {
+				switch x := o.(type) {
+				case *ssa.Slice:
+					if a, ok := x.X.(*ssa.Alloc); ok {
+						if at, ok := a.Type().Underlying().(*types.Pointer); ok {
+							if arr, ok := at.Elem().Underlying().(*types.Array); ok {
+								out[fmt.Sprintf("literal of %d", arr.Len())] = true
+								continue
+							}
+						}
+					}
+					out["slice of "+x.X.Name()] = true
+				case *ssa.Call:
+					nm := callName(x.Common())
+					if nm == "NewIndex" {
+						// where is loc stored? at a position chosen by a scan over Dims, or a constant
+						kind := "zero index"
+						for _, ref := range refsDeep(x) {
+							if st, ok := ref.(*ssa.Store); ok {
+								if ia, ok := st.Addr.(*ssa.IndexAddr); ok {
+									if _, isC := constInt(ia.Index); isC {
+										kind = "zero index, position stored at a fixed axis"
+									} else {
+										kind = "zero index, position stored at a scanned axis"
+									}
+								}
+							}
+						}
+						out[kind] = true
+						continue
+					}
+					out["helper "+nm] = true
+				case *ssa.MakeSlice:
+					out["make"] = true
+				default:
+					if o == nil {
+						out["nil"] = true
+					} else {
+						out[fmt.Sprintf("%T", o)] = true
+					}
+				}
+			}
+		}
+		var ks []string
+		for k := range out {
+			ks = append(ks, k)
+		}
+		sort.Strings(ks)
+		return out, strings.Join(ks, " | ")
+	}
+	for _, at := range arrayTypes(p) {
+		if !only(at) {
+			continue
+		}
+		g, s1 := at.own("Get1"), at.own("Set1")
+		if g == nil || s1 == nil {
+			continue
+		}
+		n++
+		tname := at.rel + "." + at.named.Obj().Name()
+		gd, gs := descr(g, "Get")
+		sd, ss := descr(s1, "Set")
+		same := len(gd) == len(sd) && len(gd) > 0
+		for k := range gd {
+			if !sd[k] {
+				same = false
+			}
+		}
+		if same {
+			r.OK("R01.7", fmt.Sprintf("%s: Get1 and Set1 build their index the same way (%s)", tname, gs))
+		} else {
+			r.Fail("R01.7", tname+":Get1/Set1", p.Pos(s1.Pos()), fmt.Sprintf("Get1 addresses its element by {%s}, Set1 by {%s}: on a view with more than one axis (a 1×N row used as a series) the write lands on a different element than the read — k rows further down, outside the view", gs, ss))
+		}
+	}
+	r.Floor("R01.7", "array types with 1-D accessors", n, 4)
 }
